@@ -4,7 +4,7 @@ import re
 from collections import defaultdict
 
 from .facts import call_matches, op_place, rvalue_places
-from .util import calls, flow_call, arg_origin_calls
+from .util import calls, flow_call, arg_origin_calls, data_deps
 
 IOUR_OP = "compio_driver::sys::driver::iour::op::OpCode"
 POLL_OP = "compio_driver::sys::driver::poll::op::OpCode"
@@ -632,4 +632,57 @@ def rule_forward(ctx, db, rid, want_socket=None):
                            "wrapper silently drops what the inner op does there, e.g. recording the received length or "
                            "copying address / control lengths back at completion)" % mth,
                            ms.get(mth) or next(iter(ms.values())))
+    return n
+
+
+# ---- readiness interest of polling ops ----------------------------------------------------------------------------
+_RD_SYS = re.compile(r"(::|^)(recv|recvfrom|recvmsg|read|readv|accept|accept4|accept_with|acceptfrom|acceptfrom_with|recv_uninit|read_uninit)$")
+_WR_SYS = re.compile(r"(::|^)(send|sendto|sendmsg|sendmsg_addr|write|writev|connect|sendmsg_v4|sendmsg_v6|sendmsg_unix)$")
+
+
+def _interests(f):
+    out = set()
+    for bb, t in f.calls():
+        n = t.get("rfn") or t.get("fn") or ""
+        if n.endswith("Decision::wait_readable"):
+            out.add("Readable")
+        elif n.endswith("Decision::wait_writable"):
+            out.add("Writable")
+        elif n.endswith("::decide") or n.endswith("Decision::wait_for"):
+            pl = op_place(t["args"][1]) if len(t.get("args", [])) > 1 else None
+            if pl is not None:
+                locs, cr, places = data_deps(f, pl["l"])
+                for l in locs | {pl["l"]}:
+                    for d in f.cfg.defs.get(l, []):
+                        if d[0] == "assign" and d[3]["r"].get("k") == "agg" and (d[3]["r"].get("adt") or "").endswith("Interest"):
+                            out.add(d[3]["r"].get("var"))
+    return out
+
+
+def rule_interest(ctx, db, rid, want_socket):
+    """A polling op that has to wait registers the readiness that matches its system call: Readable for the receiving /
+    reading / accepting calls, Writable for the sending / writing / connecting ones. (Waiting for the wrong direction
+    compiles and passes every test that never meets a full or empty socket buffer; under back-pressure the op hangs.)"""
+    n = 0
+    for imp, adt, ms in op_impls(db, POLL_OP):
+        if want_socket is not None and is_socket_op(adt) != want_socket:
+            continue
+        ints, cls = set(), set()
+        for f in ms.values():
+            for g in reach_fns(db, f, depth=3):
+                if g.id.startswith("compio_driver::sys::op"):
+                    ints |= _interests(g)
+                for bb, t in g.calls():
+                    nm = t.get("rfn") or t.get("fn") or ""
+                    if nm.startswith(("rustix::", "libc::", "socket2::")):
+                        if _RD_SYS.search(nm):
+                            cls.add("Readable")
+                        if _WR_SYS.search(nm):
+                            cls.add("Writable")
+        if not ints or len(cls) != 1:
+            continue
+        n += 1
+        want = next(iter(cls))
+        ctx.ob(rid, "interest-matches-syscall:" + short(adt) + "@" + imp["info"].get("id", "")[-12:], ints == {want},
+               "waits for %s, its system call needs %s" % ("/".join(sorted(ints)), want), next(iter(ms.values()), None))
     return n
